@@ -237,4 +237,9 @@ func runC06(c *Ctx) {
 	}
 
 	_ = fmt.Sprint
+
+	// ---------- R06.8 no output without the finalizer on its input (same obligations as C07 R07.3): otherwise the
+	// input can be destroyed while the output exists, and nothing ever tears the output down
+	c.Import(runC07, "R07.3", "", "R06.8", "E1", "qtransform.reconcileRunning: the output is modified only after the controller finalizer is on the input", 2)
+
 }
